@@ -199,8 +199,8 @@ where V: GT + VectorSpace, V::Scalar: GT, R: GT {
     kani::cover!(p == HI && HI > LO && HI <= 6, "reach_all_perms");
 }
 
-/// each single omission (with the two remaining fields in either order) is rejected
-pub fn dec_omissions<V, R>()
+/// each single omission is rejected (STEP = 1: with the two remaining fields in either order; STEP = 2: one order)
+pub fn dec_omissions<V, R, const STEP: usize>()
 where V: GT + VectorSpace, V::Scalar: GT, R: GT {
     let d: Decomposed<V, R> = GT::arb();
     let g = dec_groups(&d);
@@ -210,12 +210,12 @@ where V: GT + VectorSpace, V::Scalar: GT, R: GT {
     while p < 6 {
         let b = dec_assemble(&g, &OMIT[p], None, filler);
         assert!(de_all::<Decomposed<V, R>>(&b).is_none(), "Decomposed: a missing field must be an error, not a default");
-        p += 1;
+        p += STEP;
     }
     // sanity of the construction itself: the complete stream is accepted
     let b = dec_assemble(&g, &PERMS[0], None, filler);
     assert!(de_all::<Decomposed<V, R>>(&b).is_some(), "Decomposed: complete stream accepted");
-    kani::cover!(p == 6, "reach_all_omissions");
+    kani::cover!(p == 6 && (STEP == 1 || STEP == 2), "reach_all_omissions");
 }
 
 /// an unknown field (before, between or after the three known ones) is rejected
